@@ -12,6 +12,7 @@ RULE = ('2-4 real CAs on separate stacks with distinct 64-bit NAMEs (all orderin
         'addresses equal / adjacent / distinct in the immediate and veto ranges, start instants and claim delays on the grid {0,10,240,249,250,251,260,490,500,510,750 ms, '
         'random}, latency policies in [0, 5 ms] incl. synchronous delivery; invariants are evaluated on final CA states and the bus record. non-trivial = at least two '
         'CAs announced the same address; distinct = distinct scenario JSON')
+FAULT_COUNTERS = {'contended addresses (two or more CAs announced the same address)': 'contended_addresses', 'zero-latency bus (runs)': 'zero_latency_runs'}
 REQUIRED_PROBES = ['contended_addresses', 'cannot_claim_outcomes', 'moves', 'zero_latency_runs', 'veto_range_runs']
 GRID_MS = [0, 0, 10, 240, 249, 250, 251, 260, 490, 500, 510, 750]
 STATE = {0: 'NONE', 1: 'WAIT_VETO', 2: 'NORMAL', 3: 'CANNOT_CLAIM'}
